@@ -269,3 +269,34 @@ func enumName(v ssa.Value) string {
 	}
 	return ""
 }
+
+// precedesAll: every path from entry to each B-site passes an A-site (quiet).
+func precedesAll(fn *ssa.Function, isA, isB InstrPred) bool {
+	rs := core.Reach([]core.Point{core.EntryOf(fn)}, func(in ssa.Instruction) bool { return isA(in) }, nil)
+	for _, b := range sites(fn, isB) {
+		if rs.Has(b) {
+			return false
+		}
+	}
+	return true
+}
+
+// followsAll: every path from each A-site to a return passes a B-site (quiet).
+// onlySuccess: only returns whose last result may be a nil error / non-error count.
+func followsAll(fn *ssa.Function, isA, isB InstrPred, onlySuccess bool) bool {
+	for _, a := range sites(fn, isA) {
+		rs := core.Reach([]core.Point{core.After(a)}, func(in ssa.Instruction) bool { return isB(in) }, nil)
+		for _, r := range core.Returns(fn) {
+			if !rs.Has(r) {
+				continue
+			}
+			if onlySuccess {
+				if conv, idx, ok := core.ResultConv(fn.Signature); ok && len(r.Results) > idx && !core.MayBeSuccess(fn, r, idx, conv) {
+					continue
+				}
+			}
+			return false
+		}
+	}
+	return true
+}
